@@ -11,10 +11,18 @@
 //  (2) apply_efficiencies / apply_block_norm / apply_geo_norm == direct double loop; apply=false restores.
 //  (3) data generated exactly from the model => iterate_* return the parameters; make_fan_sum_data == direct sums.
 //  (4) efficiency iterations do not increase KL (harness KL in double, each LOR once); stir::KL vs harness KL.
+//  (D1-D3) cases with a "driver" object run ML_estimate_component_based_normalisation as a whole (see check_driver below):
+//      fixed point of exact data, equality of every written file with an independent re-computation of that ML step, descent.
 #include "c20_fanref.h"
 #include "stir/IndexRange2D.h"
+#include "stir/recon_buildblock/ML_estimate_component_based_normalisation.h"
 #include <algorithm>
 #include <set>
+#include <fstream>
+#include <cstring>
+#include <iostream>
+#include <filesystem>
+#include <unistd.h>
 
 using namespace vf;
 using namespace stir;
@@ -302,10 +310,14 @@ check_apply(const char* what, const Ctx& X, const FanProjData& f0, const std::ve
   return Result::pass();
 }
 
+Result check_driver(const json& c);
+
 Result
 check(const json& c)
 {
   g_excluded.clear();
+  if (c.contains("driver"))
+    return check_driver(c);
   shared_ptr<Scanner> sc;
   shared_ptr<ProjDataInfo> pdi_sptr;
   try
@@ -671,6 +683,561 @@ check(const json& c)
   return Result::pass();
 }
 
+// ========================================================================================================================
+// The estimation DRIVER  ML_estimate_component_based_normalisation(prefix, measured, model, num_eff_iterations, num_iterations,
+//                                                                  do_geo, do_block, do_symmetry_per_block, do_KL, do_display)
+// (src/recon_buildblock/ML_estimate_component_based_normalisation.cxx; called as the utility find_ML_normfactors3D calls it).
+//
+// A driver case = scanner + span-1 data as above + {do_geo, do_block, do_sym, outer (1..4), eff_iters (1..4), mode}.
+// The harness generates model and measured values on the detector pairs of the fan (its own fan reference), writes them into
+// projection data through get_bin_for_det_pos_pair (gap bins and bins outside the symmetric fan get a filler that must never be
+// read), runs the driver in a per-case temporary directory and reads back the files it wrote
+//      <prefix>_eff_<k>_<j>.out   <prefix>_geo_<k>.out   <prefix>_block_<k>.out        (k outer, j efficiency iteration)
+// with its own parser (numbers in the order stir's operator<< writes nested arrays; 6 significant digits).
+//
+// Clauses:
+//  (D1) FIXED POINT.  mode "fixed": measured = c^2 x model_data with model_data = model x eff x geo x block (harness product):
+//       the parameters of these data w.r.t. model_data are (c,1,1), which is also where the driver starts, so after EVERY outer
+//       iteration model_data x (read-back factors) must reproduce the measured data entry by entry (rel 2e-4).  (This is what
+//       recon_test_pack/run_ML_norm_tests.sh does with one data set.)  For general true factors the driver's result after a
+//       finite number of iterations does NOT reproduce the data (it starts from uniform efficiencies), so nothing of that kind is
+//       demanded in the other modes.
+//  (D2) STEP EQUALITY.  Every file of outer iteration k equals what the primitives of ML_norm.cxx give in the documented order
+//       when started from the driver's own files of the previous step:
+//         eff_k_j  = iterate_efficiencies(eff_k_(j-1) [eff_(k-1)_last for j=1], fan sums of the data, model x geo_(k-1) x block_(k-1))
+//         geo_k    = do_geo   ? iterate_geo_norm(make_geo_data(data), model x eff_k_last x block_(k-1))  : geo_(k-1)
+//         block_k  = do_block ? iterate_block_norm(make_block_data(data), model x eff_k_last x geo_k)    : block_(k-1)
+//       with geo_0 = block_0 = 1.  The start value of the efficiencies is the driver's own business: eff_1_1 is not compared.
+//  (D3) DESCENT.  The harness's double-precision once-per-LOR KL between the measured fan data and model x current factors does
+//       not increase along eff_1_1, eff_1_2, ..., geo_1, block_1, eff_2_1, ... (each step is the exact conditional ML update of
+//       one group of parameters).
+// ========================================================================================================================
+
+// the factors are read back with 6 significant digits (rel 5e-6 each, four factors per pair: worst case 2e-5; observed 1.1e-5)
+const double TOL_DRV_FIXED = 2e-4;
+// step equality: the inputs are read back with 6 significant digits (rel 5e-6 each), the updates are ratios of positive sums of
+// products of <= 4 such factors: worst case ~2.5e-5; calibrated in props.d/C20.py
+const double TOL_DRV_STEP = 3e-4;
+
+//! diagnostic switch for sensitivity runs: VERIF_C20_DRIVER_CLAUSES=<subset of "123"> runs only these driver clauses (default: all)
+inline bool
+drv_clause(char k)
+{
+  static const char* e = std::getenv("VERIF_C20_DRIVER_CLAUSES");
+  return !e || std::strchr(e, k) != nullptr;
+}
+
+struct TmpDir
+{
+  std::string path;
+  TmpDir()
+  {
+    static long counter = 0;
+    const char* base = std::getenv("VERIF_TMP");
+    const std::string b = base ? std::string(base) : cat("/tmp/verif_", long(getpid()));
+    path = cat(b, "/c20_", long(getpid()), "_", ++counter);
+    std::filesystem::create_directories(path);
+  }
+  ~TmpDir()
+  {
+    std::error_code ec;
+    std::filesystem::remove_all(path, ec);
+    if (!std::getenv("VERIF_TMP"))
+      std::filesystem::remove(cat("/tmp/verif_", long(getpid())), ec); // only succeeds when empty
+  }
+  TmpDir(const TmpDir&) = delete;
+  TmpDir& operator=(const TmpDir&) = delete;
+};
+
+//! all numbers of a file written with stir's operator<< for (nested) arrays, in the order written
+bool
+read_values(const std::string& path, std::vector<double>& v, std::string& err)
+{
+  std::ifstream in(path);
+  if (!in)
+    {
+      err = "cannot open " + path;
+      return false;
+    }
+  const std::string txt((std::istreambuf_iterator<char>(in)), std::istreambuf_iterator<char>());
+  const char* p = txt.c_str();
+  while (*p)
+    {
+      if (*p == '{' || *p == '}' || *p == ',' || *p == ' ' || *p == '\n' || *p == '\r' || *p == '\t')
+        {
+          ++p;
+          continue;
+        }
+      char* end = nullptr;
+      const double x = std::strtod(p, &end);
+      if (end == p)
+        {
+          err = cat("unexpected character '", *p, "' in ", path);
+          return false;
+        }
+      v.push_back(x);
+      p = end;
+    }
+  return true;
+}
+
+//! pointers to all cells of a container in STORAGE order (the order operator<< writes them)
+std::vector<float*>
+cells(Array<2, float>& a)
+{
+  std::vector<float*> v;
+  for (auto it = a.begin_all(); it != a.end_all(); ++it)
+    v.push_back(&*it);
+  return v;
+}
+std::vector<float*>
+cells(GeoData3D& a)
+{
+  std::vector<float*> v;
+  Array<4, float>& base = a; // public base
+  for (auto it = base.begin_all(); it != base.end_all(); ++it)
+    v.push_back(&*it);
+  return v;
+}
+//! FanProjData (also BlockData3D) hides its Array base: storage is [ra][a][rb][b] with rb >= ra, b in [min_b(a), max_b(a)]
+//! (constructor, ML_norm.cxx:733-750); operator()(ra,a,rb,b) addresses that cell for ra < rb and the cell [rb][b][ra][a] otherwise
+//! (ML_norm.cxx:765-772), so the storage cell [ra][a][ra][b] is reached as (ra, b mod n, ra, a)
+std::vector<float*>
+cells(FanProjData& f)
+{
+  std::vector<float*> v;
+  const int n = f.get_num_detectors_per_ring();
+  for (int ra = f.get_min_ra(); ra <= f.get_max_ra(); ++ra)
+    for (int a = f.get_min_a(); a <= f.get_max_a(); ++a)
+      for (int rb = std::max(ra, f.get_min_rb(ra)); rb <= f.get_max_rb(ra); ++rb)
+        for (int b = f.get_min_b(a); b <= f.get_max_b(a); ++b)
+          v.push_back(ra < rb ? &f(ra, a, rb, b) : &f(ra, b % n, ra, a));
+  return v;
+}
+
+//! fills an array of the expected shape with the numbers of a file
+template <class ArrayT>
+Result
+load_file(ArrayT& a, const std::string& path, const char* what)
+{
+  std::vector<double> v;
+  std::string err;
+  if (!read_values(path, v, err))
+    return Result::fail(cat("driver output ", what, ": ", err));
+  const std::vector<float*> cs = cells(a);
+  VF_CHECK(cs.size() == v.size(), "driver output ", what, " holds ", v.size(), " numbers, the container for this scanner has ", cs.size());
+  for (std::size_t k = 0; k < cs.size(); ++k)
+    {
+      VF_CHECK(std::isfinite(v[k]) && v[k] >= 0, "driver output ", what, ": entry ", k, " = ", v[k]);
+      *cs[k] = float(v[k]);
+    }
+  return Result::pass();
+}
+
+//! element-wise comparison of two containers of the same shape (reference from the primitives vs file of the driver)
+template <class ArrayT>
+Result
+same_values(const std::string& what, ArrayT& ref, ArrayT& got, const char* statkey)
+{
+  const std::vector<float*> r = cells(ref), g = cells(got);
+  double worst = 0;
+  for (std::size_t idx = 0; idx < r.size(); ++idx)
+    {
+      const double want = *r[idx], have = *g[idx];
+      if (want == 0)
+        {
+          if (have != 0)
+            return Result::fail(cat("driver: ", what, " entry ", idx, " = ", have, " but the ML step computed with the primitives gives 0"));
+          continue;
+        }
+      const double err = std::fabs(have - want) / std::fabs(want);
+      worst = std::max(worst, err);
+      if (!(err <= TOL_DRV_STEP))
+        return Result::fail(cat("driver: ", what, " entry ", idx, " = ", have, " but the ML step computed with the primitives from the driver's previous factors gives ",
+                                want, " (rel ", err, ")"));
+    }
+  smax(statkey, worst);
+  return Result::pass();
+}
+
+//! symmetry unit of the geometric factors as the driver documents it (release_5.0.htm: a bucket if there are several buckets,
+//! a block otherwise or with --for-symmetry-per-block)
+void
+driver_units(const Blocks& B, bool do_sym, int& unit_tr, int& unit_ax)
+{
+  unit_tr = B.p_tr;
+  unit_ax = B.p_ax;
+  if (!do_sym)
+    {
+      if (B.nbuckets_tr > 1)
+        unit_tr *= B.bpb_tr;
+      if (B.nbuckets_ax > 1)
+        unit_ax *= B.bpb_ax;
+    }
+}
+
+//! preconditions of the driver that are not reported by error():
+//!  - BlockData3D(nb_ax, nb_tr, nb_ax-1, nb_tr-1) is constructed unconditionally: FanProjData constructor asserts an even
+//!    number of "detectors" (= transaxial blocks) (ML_norm.cxx:729);
+//!  - GeoData3D stores HALF a symmetry unit (constructor argument half_num_transaxial_crystals_per_block, the driver passes
+//!    unit/2 and make_geo_data/apply_geo_norm use 2*half): the unit must be even;
+//!  - apply_block_norm / make_block_data assert blocks x crystals == detectors (true for physical crystals by construction).
+bool
+driver_applicable(const Blocks& B, bool do_sym)
+{
+  int ut, ua;
+  driver_units(B, do_sym, ut, ua);
+  return B.nb_tr >= 2 && B.nb_tr % 2 == 0 && ut % 2 == 0 && B.nphys % ut == 0 && B.nrphys % ua == 0;
+}
+
+Result
+check_driver(const json& c)
+{
+  shared_ptr<Scanner> sc;
+  shared_ptr<ProjDataInfo> pdi_sptr;
+  try
+    {
+      sc = c20::make_scanner(c["scanner"]);
+      if (sc->check_consistency() != Succeeded::yes)
+        return Result::reject("scanner inconsistent");
+      pdi_sptr = vg::make_pdi(sc, c["pdi"]);
+    }
+  catch (const std::exception& e)
+    {
+      return Result::reject(std::string("construction rejected: ") + e.what());
+    }
+  const ProjDataInfoCylindricalNoArcCorr* pdi = dynamic_cast<const ProjDataInfoCylindricalNoArcCorr*>(pdi_sptr.get());
+  if (!pdi)
+    return Result::reject("not cylindrical non-arc-corrected data");
+  const Blocks B = Blocks::from(*sc);
+  const FanDims F = FanDims::from(*pdi, B);
+  if (!F.constructible(B))
+    return Result::reject("fan not smaller than the ring (FanProjData constructor precondition)");
+  const json& d = c["driver"];
+  const bool do_geo = d["do_geo"].get<bool>(), do_block = d["do_block"].get<bool>(), do_sym = d["do_sym"].get<bool>();
+  const bool do_KL = d.value("do_KL", false);
+  const int outer = d["outer"].get<int>(), eff_iters = d["eff_iters"].get<int>();
+  const std::string mode = d["mode"].get<std::string>();
+  if (!driver_applicable(B, do_sym))
+    return Result::reject("driver preconditions: even number of transaxial blocks and an even symmetry unit");
+  if (outer < 1 || eff_iters < 1)
+    return Result::reject("at least one outer and one efficiency iteration (else no file is written)");
+  int unit_tr, unit_ax;
+  driver_units(B, do_sym, unit_tr, unit_ax);
+  const int nph = B.nphys, nrph = B.nrphys;
+  if (double(nph) * nph * nrph * nrph > 3e6)
+    return Result::reject("too large for the class table of the geometric factors");
+  Ctx X{ c, sc, pdi_sptr, pdi, B, F, fan_domain(B, F) };
+  const ProjDataInfoCylindricalNoArcCorr& p = *pdi;
+
+  stats().cls("driver case");
+  stats().cls(cat("driver: mode ", mode));
+  stats().cls(cat("driver: do_geo=", int(do_geo), " do_block=", int(do_block), " do_sym=", int(do_sym)));
+  stats().cls(cat("driver: outer iterations ", outer));
+  stats().cls(cat("driver: efficiency iterations ", eff_iters));
+  if (do_block && outer >= 2)
+    stats().cls("driver: do_block with >= 2 outer iterations");
+  if (B.v_tr || (B.v_ax && B.nb_ax > 1))
+    stats().cls("driver: virtual crystals");
+  if (unit_tr != B.p_tr || unit_ax != B.p_ax)
+    stats().cls("driver: symmetry unit = bucket");
+  stats().count("driver: detector pairs", long(X.dom.size()));
+
+  // ---- bins of the detector pairs of the fan (harness reference, as in clause 1) ---------------------------------------------
+  c20::BinStore store(pdi_sptr);
+  std::vector<long> bin_of(X.dom.size(), -1);
+  for (std::size_t i = 0; i < X.dom.size(); ++i)
+    {
+      const Entry& e = X.dom[i];
+      const DetectionPositionPair<> dp(DetectionPosition<>(B.orig_tr(e.a), B.orig_ax(e.ra)), DetectionPosition<>(B.orig_tr(e.b), B.orig_ax(e.rb)));
+      Bin bin;
+      if (p.get_bin_for_det_pos_pair(bin, dp) == Succeeded::yes
+          && store.in_range(bin.segment_num(), bin.axial_pos_num(), bin.view_num(), bin.tangential_pos_num())
+          && std::abs(bin.tangential_pos_num()) <= F.half_fan)
+        bin_of[i] = store.index(bin.segment_num(), bin.axial_pos_num(), bin.view_num(), bin.tangential_pos_num());
+    }
+  // finding F1 (even number of tangential positions: the bins at min_tang are outside the symmetric fan and never read): the
+  // driver cases hold a filler there and nothing is demanded about them - same exclusion as in the round-trip clause
+  if (p.get_max_tangential_pos_num() != -p.get_min_tangential_pos_num() && !no_exclude)
+    excluded(SIG_F1);
+
+  // ---- true parameters and data on the fan --------------------------------------------------------------------------------------
+  const uint64_t seed_par = c["seed_par"].get<uint64_t>();
+  DetectorEfficiencies eff_true(IndexRange2D(nrph, nph));
+  for (int r = 0; r < nrph; ++r)
+    for (int a = 0; a < nph; ++a)
+      eff_true[r][a] = float(c20::hreal(seed_par, uint64_t(r) * 4096 + uint64_t(a), 0.4, 2.5));
+  c20::GeoClasses cl(nph, nrph, unit_tr, unit_ax);
+  const std::size_t N = X.dom.size();
+  std::vector<double> model(N), truth(N), data(N);
+  for (std::size_t i = 0; i < N; ++i)
+    {
+      const Entry& e = X.dom[i];
+      const double g = double(float(c20::hreal(seed_par ^ 0x6e0ULL, uint64_t(cl.cls(e.ra, e.a, e.rb, e.b)), 0.5, 2.)));
+      const double b = e.a / B.p_tr == e.b / B.p_tr
+                           ? 1.
+                           : double(float(c20::hreal(seed_par ^ 0xb10cULL, c20::pair_key(e.ra / B.p_ax, e.a / B.p_tr, e.rb / B.p_ax, e.b / B.p_tr, B.nb_tr), 0.5, 2.)));
+      truth[i] = double(eff_true[e.ra][e.a]) * double(eff_true[e.rb][e.b]) * g * b;
+      model[i] = bin_of[i] < 0 ? 0. : double(float(c20::hreal(seed_par ^ 0x30de1ULL, c20::pair_key(e.ra, e.a, e.rb, e.b, nph), 1., 50.)));
+    }
+  double total = 0;
+  if (mode == "fixed")
+    {
+      // model_data := model x true product; measured := c^2 x model_data
+      const double cc = c20::hreal(seed_par ^ 0xf1edULL, 1, 0.3, 3.);
+      for (std::size_t i = 0; i < N; ++i)
+        {
+          model[i] = double(float(model[i] * truth[i]));
+          data[i] = double(float(cc * cc * model[i]));
+        }
+    }
+  else if (mode == "exact")
+    for (std::size_t i = 0; i < N; ++i)
+      data[i] = double(float(model[i] * truth[i]));
+  else
+    {
+      const double mean_scale = c["count_scale"].get<double>();
+      for (std::size_t i = 0; i < N; ++i)
+        {
+          const Entry& e = X.dom[i];
+          vf::SplitMix g(c["seed_noise"].get<uint64_t>() ^ (c20::pair_key(e.ra, e.a, e.rb, e.b, nph) * 0x9e3779b97f4a7c15ULL));
+          g.next();
+          data[i] = double(poisson(g, mean_scale * model[i] * truth[i])); // same stream for (p,q) and (q,p): symmetric data
+        }
+    }
+  for (std::size_t i = 0; i < N; ++i)
+    total += 0.5 * data[i];
+  if (!(total > 0))
+    return Result::reject("no counts at all");
+
+  // ---- projection data for the driver ------------------------------------------------------------------------------------------------
+  shared_ptr<ExamInfo> exam(new ExamInfo);
+  ProjDataInMemory pd_model(exam, X.pdi_sptr), pd_data(exam, X.pdi_sptr);
+  {
+    std::vector<float> vm(std::size_t(store.total), 5.F), vd(std::size_t(store.total), 3.F); // fillers: gap bins, bins outside the fan
+    for (std::size_t i = 0; i < N; ++i)
+      if (bin_of[i] >= 0)
+        {
+          vm[std::size_t(bin_of[i])] = float(model[i]);
+          vd[std::size_t(bin_of[i])] = float(data[i]);
+        }
+    store.to_projdata(pd_model, vm);
+    store.to_projdata(pd_data, vd);
+  }
+
+  // ---- run the driver ------------------------------------------------------------------------------------------------------------------
+  TmpDir tmp;
+  const std::string prefix = tmp.path + "/norm";
+  ML_estimate_component_based_normalisation(prefix, pd_data, pd_model, eff_iters, outer, do_geo, do_block, do_sym, do_KL, /*do_display=*/false);
+
+  // ---- harness side: fan data, sums of the data ------------------------------------------------------------------------------------
+  const int fan_size = 2 * F.new_half_fan + 1;
+  FanProjData mfan(nrph, nph, F.new_max_delta, fan_size), dfan(nrph, nph, F.new_max_delta, fan_size);
+  set_all(mfan, X.dom, model);
+  set_all(dfan, X.dom, data);
+  Array<2, float> sums(IndexRange2D(nrph, nph));
+  make_fan_sum_data(sums, dfan);
+  GeoData3D measured_geo(unit_ax, unit_tr / 2, nrph, nph);
+  make_geo_data(measured_geo, dfan);
+  BlockData3D measured_block(B.nb_ax, B.nb_tr, B.nb_ax - 1, B.nb_tr - 1);
+  make_block_data(measured_block, dfan);
+  bool zero_sum = false;
+  for (int r = 0; r < nrph; ++r)
+    for (int a = 0; a < nph; ++a)
+      if (sums[r][a] == 0)
+        zero_sum = true;
+  if (zero_sum)
+    stats().cls("driver: detector with zero fan sum");
+
+  // model x factors per detector pair, in double (efficiencies and block factors by direct lookup; the geometric factor of a pair
+  // is what apply_geo_norm puts on a fan of ones - the assignment of representatives to pairs is the library's, clause 2c)
+  auto prediction = [&](const DetectorEfficiencies& e, const GeoData3D& g, const BlockData3D& bd) {
+    FanProjData ones(nrph, nph, F.new_max_delta, fan_size);
+    ones.fill(1.F);
+    apply_geo_norm(ones, g, true);
+    const std::vector<double> gsnap = snapshot(ones, X.dom);
+    std::vector<double> pred(N);
+    for (std::size_t i = 0; i < N; ++i)
+      {
+        const Entry& en = X.dom[i];
+        double bf = 1.;
+        if (en.a / B.p_tr != en.b / B.p_tr)
+          bf = en.ra <= en.rb ? bd(en.ra / B.p_ax, en.a / B.p_tr, en.rb / B.p_ax, en.b / B.p_tr) : bd(en.rb / B.p_ax, en.b / B.p_tr, en.ra / B.p_ax, en.a / B.p_tr);
+        pred[i] = model[i] * double(e[en.ra][en.a]) * double(e[en.rb][en.b]) * gsnap[i] * bf;
+      }
+    return pred;
+  };
+  auto kl_of = [&](const std::vector<double>& pred) {
+    double s = 0;
+    for (std::size_t i = 0; i < N; ++i)
+      if (!(data[i] == 0 && pred[i] == 0))
+        s += 0.5 * c20::kl_term(data[i], pred[i], 0.);
+    return s;
+  };
+
+  // ---- walk through the files --------------------------------------------------------------------------------------------------------
+  DetectorEfficiencies eff_prev(IndexRange2D(nrph, nph));
+  GeoData3D geo_prev(unit_ax, unit_tr / 2, nrph, nph);
+  BlockData3D blk_prev(B.nb_ax, B.nb_tr, B.nb_ax - 1, B.nb_tr - 1);
+  geo_prev.fill(1.F);
+  blk_prev.fill(1.F);
+  bool have_eff = false;
+  double kl_prev = -1;
+  std::string kl_prev_label;
+  // The block step is the exact conditional ML update of the block factors EXCEPT for block pairs inside one axial block
+  // position when these contain both LORs inside one ring and LORs between rings (p_ax >= 2 and ring differences > 0):
+  // BlockData3D has two cells for such a pair ("lower ring in block A" / "lower ring in block B"), make_block_data adds every
+  // in-ring LOR to both with weight 1 (it is stored twice in the fan data) although each copy has weight 1/2 in the likelihood.
+  // From the first such block step on the two stored copies of an in-ring LOR can differ, the steps are weighted updates, and
+  // descent is not a theorem (observed increases ~1e-4 relative).  The property text asks descent of the efficiency iterations
+  // for a symmetric product model only, so nothing is demanded there; the increases are recorded.
+  const bool block_step_inexact = do_block && B.p_ax >= 2 && F.new_max_delta >= 1;
+  if (block_step_inexact)
+    stats().cls("driver: block step not an exact ML update (descent not demanded after the first block step)");
+  // The geo step is the exact conditional ML update when the number of (physical) rings is even.  With an odd number,
+  // make_geo_data adds the axial mirror image only "if (ra != mra && rb != mrb)": LORs that touch the middle ring enter the sums
+  // of their class once, all others twice (once as themselves, once as the mirror image of their mirror image), so the update
+  // is a weighted one and can increase the KL slightly (observed ~1e-3 relative at low counts).  Not demanded, recorded.
+  const bool geo_step_inexact = do_geo && nrph % 2 != 0;
+  if (geo_step_inexact)
+    stats().cls("driver: geo step not an exact ML update (odd number of rings; descent of the geo step not demanded)");
+  bool symmetric_model = true; // false after the first inexact block step
+  auto descent = [&](const std::string& label, const DetectorEfficiencies& e, const GeoData3D& g, const BlockData3D& bd, const std::string& step, bool strict) -> Result {
+    const double kl = kl_of(prediction(e, g, bd));
+    VF_CHECK(std::isfinite(kl), "driver: KL between the data and model x factors is not finite after ", label);
+    if (std::getenv("VERIF_C20_TRACE"))
+      std::cerr << "C20 driver trace: after " << label << " KL = " << cat(kl) << (strict ? "" : "  [descent not demanded]") << " (total counts " << total << ")\n";
+    if (kl_prev >= 0)
+      {
+        const std::string tag = strict ? "" : " [not demanded]";
+        if (kl_prev > 1e-6 * total)
+          smax("driver: max relative KL increase in " + step + tag, (kl - kl_prev) / kl_prev);
+        smax("driver: max KL increase / total counts" + tag, (kl - kl_prev) / total);
+        if (strict)
+          smax("driver: max KL increase / tolerance (1e-6 KL + 1e-9 counts)", (kl - kl_prev) / (1e-6 * kl_prev + 1e-9 * total));
+        if (strict && drv_clause('3'))
+          {
+            stats().count("driver: descent steps checked");
+            VF_CHECK(kl <= kl_prev * (1. + 1e-6) + 1e-9 * total, "driver: KL between the measured data and model x factors goes up from ", kl_prev, " (after ",
+                     kl_prev_label, ") to ", kl, " (after ", label, "); total counts ", total);
+          }
+      }
+    kl_prev = kl;
+    kl_prev_label = label;
+    return Result::pass();
+  };
+
+  for (int k = 1; k <= outer; ++k)
+    {
+      // efficiencies
+      FanProjData fan = mfan;
+      apply_geo_norm(fan, geo_prev);
+      apply_block_norm(fan, blk_prev);
+      for (int j = 1; j <= eff_iters; ++j)
+        {
+          const std::string label = cat("eff_", k, "_", j);
+          DetectorEfficiencies eff_file(IndexRange2D(nrph, nph));
+          {
+            Result r = load_file(eff_file, cat(prefix, "_eff_", k, "_", j, ".out"), label.c_str());
+            if (r.kind != Result::PASS)
+              return r;
+          }
+          if (have_eff && drv_clause('2'))
+            {
+              DetectorEfficiencies e = eff_prev;
+              iterate_efficiencies(e, sums, fan);
+              Result r = same_values(label, e, eff_file, "driver: max rel dev step equality efficiencies");
+              if (r.kind != Result::PASS)
+                return r;
+              stats().count("driver: efficiency steps compared");
+            }
+          {
+            Result r = descent(label, eff_file, geo_prev, blk_prev, "an efficiency iteration", symmetric_model);
+            if (r.kind != Result::PASS)
+              return r;
+          }
+          eff_prev = eff_file;
+          have_eff = true;
+        }
+      // geometric factors
+      {
+        const std::string label = cat("geo_", k);
+        GeoData3D geo_file(unit_ax, unit_tr / 2, nrph, nph);
+        {
+          Result r = load_file(geo_file, cat(prefix, "_geo_", k, ".out"), label.c_str());
+          if (r.kind != Result::PASS)
+            return r;
+        }
+        GeoData3D ref = geo_prev;
+        if (do_geo)
+          {
+            FanProjData f2 = mfan;
+            apply_efficiencies(f2, eff_prev);
+            apply_block_norm(f2, blk_prev);
+            iterate_geo_norm(ref, measured_geo, f2);
+          }
+        Result r = drv_clause('2') ? same_values(label, ref, geo_file, "driver: max rel dev step equality geo") : Result::pass();
+        if (r.kind != Result::PASS)
+          return r;
+        stats().count("driver: geo steps compared");
+        r = descent(label, eff_prev, geo_file, blk_prev, "a geo step", symmetric_model && !geo_step_inexact);
+        if (r.kind != Result::PASS)
+          return r;
+        geo_prev = geo_file;
+      }
+      // block factors
+      {
+        const std::string label = cat("block_", k);
+        BlockData3D blk_file(B.nb_ax, B.nb_tr, B.nb_ax - 1, B.nb_tr - 1);
+        {
+          Result r = load_file(blk_file, cat(prefix, "_block_", k, ".out"), label.c_str());
+          if (r.kind != Result::PASS)
+            return r;
+        }
+        BlockData3D ref = blk_prev;
+        if (do_block)
+          {
+            FanProjData f3 = mfan;
+            apply_efficiencies(f3, eff_prev);
+            apply_geo_norm(f3, geo_prev);
+            iterate_block_norm(ref, measured_block, f3);
+          }
+        Result r = drv_clause('2') ? same_values(label, ref, blk_file, "driver: max rel dev step equality block") : Result::pass();
+        if (r.kind != Result::PASS)
+          return r;
+        stats().count("driver: block steps compared");
+        if (block_step_inexact)
+          symmetric_model = false;
+        r = descent(label, eff_prev, geo_prev, blk_file, "a block step", symmetric_model);
+        if (r.kind != Result::PASS)
+          return r;
+        blk_prev = blk_file;
+      }
+      // (D1) fixed point: after every outer iteration the read-back factors reproduce the data
+      if (mode == "fixed" && drv_clause('1'))
+        {
+          const std::vector<double> pred = prediction(eff_prev, geo_prev, blk_prev);
+          double worst = 0;
+          for (std::size_t i = 0; i < N; ++i)
+            {
+              if (data[i] == 0)
+                {
+                  VF_CHECK(pred[i] == 0, "driver fixed point: pair (", X.dom[i].ra, ",", X.dom[i].a, ",", X.dom[i].rb, ",", X.dom[i].b, ") has no data but model x factors = ",
+                           pred[i]);
+                  continue;
+                }
+              const double err = std::fabs(pred[i] - data[i]) / data[i];
+              worst = std::max(worst, err);
+              VF_CHECK(err <= TOL_DRV_FIXED, "driver fixed point: after outer iteration ", k, " model x factors read back = ", pred[i], " but the data (generated exactly from the model) are ",
+                       data[i], " at pair (ra=", X.dom[i].ra, ",a=", X.dom[i].a, ",rb=", X.dom[i].rb, ",b=", X.dom[i].b, ")");
+            }
+          smax("driver: max rel err fixed point (model x factors vs data)", worst);
+          stats().count("driver: fixed points compared");
+        }
+    }
+  return Result::pass();
+}
+
 // ---- generator -------------------------------------------------------------------------------------------------
 struct Family
 {
@@ -702,9 +1269,175 @@ fix_tang(json& c)
     }
 }
 
+//! scanner for a driver case, built constructively so that driver_applicable() holds (see there for the sources)
+json
+driver_scanner(int family_type, int v_tr, int v_ax, int p_tr, int bpb_tr, int nbuckets_tr, int p_ax, int bpb_ax, int nbuckets_ax, double radius, double doi,
+               double ring_spacing, double bin_size, double tilt)
+{
+  json j;
+  const int n = (p_tr + v_tr) * bpb_tr * nbuckets_tr;
+  const int rings = (p_ax + v_ax) * bpb_ax * nbuckets_ax - v_ax;
+  j["ndet"] = n;
+  j["rings"] = rings;
+  j["tr_cryst_per_block"] = p_tr + v_tr;
+  j["ax_cryst_per_block"] = p_ax + v_ax;
+  j["tr_blocks_per_bucket"] = bpb_tr;
+  j["ax_blocks_per_bucket"] = bpb_ax;
+  j["max_tang"] = n - 1;
+  j["radius"] = radius;
+  j["doi"] = doi;
+  j["ring_spacing"] = ring_spacing;
+  j["bin_size"] = bin_size;
+  if (family_type >= 0)
+    j["family"] = family_type;
+  else
+    {
+      j["type"] = -1;
+      j["singles_units"] = 1;
+      j["tilt"] = tilt;
+      j["tof_poss"] = 0;
+      j["geometry"] = "Cylindrical";
+    }
+  return j;
+}
+
+json
+driver_pdi(const json& scanner, int max_delta, int tang)
+{
+  shared_ptr<Scanner> sc = c20::make_scanner(scanner);
+  json p;
+  p["span"] = 1; // get_fan_info: "Can only process data without axial compression (i.e. span=1)"
+  p["max_delta"] = std::min(max_delta, sc->get_num_rings() - 1);
+  p["views"] = sc->get_num_detectors_per_ring() / 2; // "Can only process data without mashing of views"
+  p["tang"] = std::max(1, std::min(tang, sc->get_max_num_non_arccorrected_bins()));
+  p["arccorr"] = false; // "Can only process not arc-corrected data"
+  p["tof_mash"] = 0;    // "make_fan_data: Incompatible with TOF data"
+  p["trim"] = json::object();
+  return p;
+}
+
+void fix_tang(json& c);
+
+json
+gen_driver(Src& s, int size)
+{
+  json c;
+  const bool big = size > 80; // thorough tier only (quick runs with size <= 80)
+  const int max_ndet = big ? 64 : (size < 30 ? 24 : 40);
+  const int max_rings = big ? 6 : 4;
+  const bool do_sym = s.coin();
+  const bool family = s.chance(1, 3);
+  int type = -1, v_tr = 0, v_ax = 0;
+  if (family)
+    {
+      const Family f = s.pick(families());
+      type = f.type;
+      v_tr = f.v_tr;
+      v_ax = f.v_ax;
+    }
+  int p_tr, bpb_tr, nbk_tr, guard = 0;
+  for (;;)
+    {
+      p_tr = int(s.small(1, 6));
+      bpb_tr = int(s.small(1, 3));
+      nbk_tr = int(s.small(1, 8));
+      const int nb = bpb_tr * nbk_tr;
+      const int unit = (do_sym || nbk_tr == 1) ? p_tr : p_tr * bpb_tr;
+      const int n = (p_tr + v_tr) * nb;
+      if (nb % 2 == 0 && unit % 2 == 0 && n % 2 == 0 && n >= 4 && n <= max_ndet)
+        break;
+      if (++guard > 80)
+        {
+          p_tr = 2;
+          bpb_tr = 1;
+          nbk_tr = 4;
+          break;
+        }
+    }
+  int p_ax, bpb_ax, nbk_ax;
+  guard = 0;
+  for (;;)
+    {
+      p_ax = int(s.small(1, 3));
+      bpb_ax = int(s.small(1, 2));
+      nbk_ax = int(s.small(1, 3));
+      if ((p_ax + v_ax) * bpb_ax * nbk_ax - v_ax <= max_rings)
+        break;
+      if (++guard > 80)
+        {
+          p_ax = bpb_ax = nbk_ax = 1;
+          break;
+        }
+    }
+  c["scanner"] = driver_scanner(type, v_tr, v_ax, p_tr, bpb_tr, nbk_tr, p_ax, bpb_ax, nbk_ax, s.nice_real(50., 450.), s.coin() ? 0. : s.nice_real(0., 12.),
+                                s.nice_real(1., 8.), s.nice_real(1., 6.), s.chance(1, 4) ? s.real(-0.5, 0.5) : 0.);
+  const int rings = c["scanner"]["rings"].get<int>(), n = c["scanner"]["ndet"].get<int>();
+  c["pdi"] = driver_pdi(c["scanner"], s.chance(1, 2) ? rings - 1 : int(s.range(0, rings - 1)), s.chance(1, 3) ? n - 1 : int(s.range(std::min(3, n - 1), n - 1)));
+  fix_tang(c);
+  c["seed_par"] = s.seed64();
+  c["seed_noise"] = s.seed64();
+  c["count_scale"] = s.pick(std::vector<double>{ 0.05, 0.3, 1., 1., 4., 20. });
+  json d;
+  d["do_geo"] = s.chance(2, 3);
+  d["do_block"] = s.chance(2, 3);
+  d["do_sym"] = do_sym;
+  // > 2 outer iterations only in the thorough tier
+  d["outer"] = big ? (s.chance(2, 3) ? int(s.range(3, 4)) : int(s.range(1, 2))) : (s.chance(1, 6) ? 1 : 2);
+  d["eff_iters"] = int(s.range(1, 4));
+  d["mode"] = s.pick(std::vector<std::string>{ "poisson", "poisson", "poisson", "exact", "fixed" });
+  d["do_KL"] = false; // do_KL=true ends the first outer iteration with boost::bad_format_string (malformed "%1%, %2" in the last info() call):
+                      // a printing defect outside the property; the KL values it prints are not part of any file
+  c["driver"] = d;
+  return c;
+}
+
+//! bounded-exhaustive part: every combination of do_geo / do_block / do_sym x outer x efficiency iterations x mode on two small
+//! scanners (generated with buckets of 2 blocks; mMR-like with one virtual crystal per block); quick: outer <= 2, thorough: 1..4
+bool
+enumerate(uint64_t idx, int tier, json& c)
+{
+  const int max_outer = tier == 1 ? 4 : 2;
+  const uint64_t n_modes = tier == 1 ? 3 : 2;
+  uint64_t i = idx;
+  const int scn = int(i % 2);
+  i /= 2;
+  const int flags = int(i % 8);
+  i /= 8;
+  const int outer = 1 + int(i % uint64_t(max_outer));
+  i /= uint64_t(max_outer);
+  const int eff_iters = 1 + int(i % 4);
+  i /= 4;
+  const int mode = int(i % n_modes);
+  i /= n_modes;
+  if (i != 0)
+    return false;
+  c = json::object();
+  if (scn == 0)
+    c["scanner"] = driver_scanner(-1, 0, 0, 2, 2, 4, 2, 1, 2, 100., 0., 4., 3., 0.); // 16 detectors, 8 blocks in 4 buckets; 4 rings in 2 buckets
+  else
+    c["scanner"] = driver_scanner(int(Scanner::Siemens_mMR), 1, 0, 2, 1, 6, 1, 2, 2, 150., 5., 3., 2., 0.); // 18 detectors (12 physical), 4 rings
+  c["pdi"] = driver_pdi(c["scanner"], scn == 0 ? 3 : 2, scn == 0 ? 11 : 9);
+  fix_tang(c);
+  c["seed_par"] = 4242 + idx;
+  c["seed_noise"] = 1717 + idx;
+  c["count_scale"] = 1.;
+  json d;
+  d["do_geo"] = (flags & 1) != 0;
+  d["do_block"] = (flags & 2) != 0;
+  d["do_sym"] = (flags & 4) != 0;
+  d["outer"] = outer;
+  d["eff_iters"] = eff_iters;
+  d["mode"] = mode == 0 ? "poisson" : (mode == 1 ? "fixed" : "exact");
+  d["do_KL"] = false;
+  c["driver"] = d;
+  return true;
+}
+
 json
 gen(Src& s, int size)
 {
+  if (s.chance(2, 5))
+    return gen_driver(s, size);
   json c;
   const bool family = s.chance(1, 3);
   if (!family)
@@ -852,6 +1585,7 @@ the_property()
   p.check = check;
   p.nontrivial = nontrivial;
   p.fixed_cases = fixed_cases;
+  p.enumerate = enumerate;
   p.rule = ">= 2 rings and fan smaller than the full ring, or virtual crystals present";
   return p;
 }
